@@ -277,6 +277,73 @@ def oracle(case, rec=None):
                                                                 accel=cfg["accel"], features=sorted(feats), tolerance=tol, npu_kernel_ops=arithmetic_ops(art)))
 
 
+def oracle_xconfig(case, rec=None):
+    """metamorphic relation (needs no reference kernel): the same source network compiled under two different compiler configurations computes the same function - bit for bit
+    where only exact-class operators are involved, within the (propagated) tolerance otherwise.  Both output models are executed on the same inputs.  Reaches operators whose
+    reference kernel is missing here (uint8 SQUARED_DIFFERENCE, TRANSPOSE_CONV on int16, int16 LEAKY_RELU with negative alpha ...) and everything that depends on the configuration
+    (accelerator, block configurations, striping, cascading, allocator, memory mode)."""
+    spec, cfg, cfg2 = case["spec"], case["cfg"], case["cfg2"]
+    tags = constructs.tags(spec, cfg)
+    arts = []
+    for c in (cfg, cfg2):
+        try:
+            art, res = e2e.compile_case(dict(case, cfg=c))
+        except (artefact.ArtefactError, vmodel.ModelError, payload.PayloadError, csdec.DecodeError) as e:
+            raise Violation("C01/artefact-malformed", "%s: %s" % (type(e).__name__, e), case, tags)
+        if res.get("harness"):
+            raise HarnessError("harness failure: %s" % (res["exc"][3],))
+        if art is None:
+            if rec is not None:
+                rec.cls("xconfig-not-compiled")
+            return
+        arts.append(art)
+    src = vmodel.load(fbwrite.build(spec))
+    tols = output_tolerances(spec)
+    # two approximations of the same operator may deviate in opposite directions
+    tols = [None if t is None else 2 * t for t in tols]
+    if all(t is None for t in tols):
+        if rec is not None:
+            rec.cls("xconfig-inconclusive")
+        return
+    decided = 0
+    outs_seen = []
+    for k, xs in enumerate(make_inputs(src, case.get("input_seed", 0))):
+        got = []
+        try:
+            for art in arts:
+                got.append(outrun.OutputRunner(art, mul_mode=0).run(xs))
+        except (tflinterp.Unsupported, npusim.Unmodelled) as e:
+            if rec is not None:
+                rec.cls("xconfig-inconclusive", "xconfig-inconclusive: %s" % str(e)[:60])
+            return
+        except npusim.SimError as e:
+            raise Violation("C01/unexecutable", "the command stream cannot be executed over the memory the file publishes: %s" % e, case, tags)
+        except outrun.RunError as e:
+            raise Violation("C01/unrunnable", "the output model cannot be run: %s" % e, case, tags)
+        worst, where = compare(got[0], got[1], tols)
+        if where is not None:
+            raise Violation("C01/xconfig-mismatch", "input set %d: the same network compiled for %s/%s/%s and for %s/%s/%s computes different results: %s; network %s" % (
+                k, cfg["accel"], cfg["optimise"], cfg["memory_mode"], cfg2["accel"], cfg2["optimise"], cfg2["memory_mode"], where[1], [o["code"] for o in spec["ops"]]), case, tags)
+        decided += 1
+        outs_seen.append(jhash([np.asarray(g).tolist() for g in got[0]]))
+    if rec is not None and decided:
+        rec.cls("xconfig-decided")
+        for o in spec["ops"]:
+            rec.cls("xconfig-op-" + o["code"])
+        if len(set(outs_seen)) >= 2 and sum(arithmetic_ops(a) for a in arts) >= 2:
+            rec.nontriv(["xconfig", [o["code"] for o in spec["ops"]], cfg, cfg2], sample=dict(kind="xconfig", ops=[o["code"] for o in spec["ops"]], accel=[cfg["accel"], cfg2["accel"]],
+                                                                                              optimise=[cfg["optimise"], cfg2["optimise"]]))
+
+
+def xconfig_part(ctx, arg, rec):
+    from hypothesis import strategies as st
+
+    profile, shard, n = arg
+    base = e2e.case_strategy(profile, max_ops=5, big=profile == "cascade", small_arena=profile == "cascade", dtypes=("int8", "int8", "uint8", "int16"))
+    strat = st.builds(lambda c, c2, s: dict(c, kind="c01x", cfg2=c2, input_seed=s), base, tflgen.config(small_arena=profile == "cascade"), st.integers(0, 1 << 30))
+    run_hypothesis(rec, strat, oracle_xconfig, n, sub_seed(ctx.seed, PROPERTY, "xconfig", profile, shard))
+
+
 def strategy(profile, quick):
     from hypothesis import strategies as st
 
@@ -331,9 +398,13 @@ def parts(ctx):
     ps += [Part("lutmix%02d" % i, part, ("lutmix", i, 14 if q else 400)) for i in range(2)]
     ps += [Part("tall%02d" % i, part, ("tall", i, 10 if q else 300)) for i in range(2)]
     ps += [Part("head%02d" % i, part, ("head", i, 16 if q else 400)) for i in range(1)]
+    ps += [Part("xconfig-%s" % p, xconfig_part, (p, 0, 10 if q else 400)) for p in ("npu", "cascade", "wide")]
     ps += [Part("approx16-%02d" % i, part, ("approx16", i, 20 if q else 500)) for i in range(2)]
     return ps
 
 
 def replay(ctx, case):
-    oracle(case, None)
+    if case.get("kind") == "c01x":
+        oracle_xconfig(case, None)
+    else:
+        oracle(case, None)
